@@ -7,6 +7,7 @@ CONSTANTS
   MaxPauses = 0
   TimeoutTicks = 2
   MaxTicks = 3
+  Weaken = "none"
   StopRoles <- NoRoles
 INVARIANTS TypeOK Fidelity NoSilentCorruption NoFalseSuccess CleanRunSucceeds AckWithinSaved
 PROPERTIES Termination
